@@ -242,6 +242,24 @@ def gen_description(rng, force=None, hostile=True, child_types=None):
         b = rng.choice(["Tools", "Extras", "Z"])
         if a + "-" + b not in [x["uid"] for x in iter_nodes(variants)] and a + b not in [x["uid"] for x in variants]:
             v["id"], v["uid"], v["type"] = a + b, a + "-" + b, "variant"
+    if force == "dashed-top-with-children" or (force is None and rng.random() < 0.06):
+        cands = [v for v in variants if v["children"] and "-" not in v["uid"]]
+        if not cands and force == "dashed-top-with-children":
+            top = gen_variant(rng, None, used, 3, [1], hostile=hostile)
+            top["children"].append(gen_variant(rng, top, set(), 3, [1], hostile=hostile))
+            variants.append(top)
+            cands = [top]
+        if cands:
+            v = rng.choice(cands)
+            a, b = rng.choice(["Server", "Work", "Q"]), rng.choice(["optional", "Tools", "Z"])
+            all_uids = set(x["uid"] for x in iter_nodes(variants))
+            if a + "-" + b not in all_uids and a not in all_uids and not any(u.startswith(a + "-" + b + "-") for u in all_uids) \
+                    and (b if b == "optional" else a + b) not in [x["id"] for x in variants]:
+                old = v["uid"]
+                v["uid"] = a + "-" + b
+                v["id"], v["type"] = ("optional", "optional") if b == "optional" else (a + b, "variant")
+                for n in iter_nodes(v["children"]):
+                    n["uid"] = v["uid"] + n["uid"][len(old):]
     if force == "paths-all":
         v = rng.choice(list(iter_nodes(variants)))
         v["paths"] = dict((k, tpath(rng, hostile)) for k in domains.TREE_PATH_KINDS)
@@ -313,6 +331,8 @@ def classes_of(D):
     nodes = list(iter_nodes(D["variants"]))
     if len(D["variants"]) >= 10 or any(len(n["children"]) >= 10 for n in nodes):
         out.add("many-variants")
+    if any("-" in v["uid"] and v["children"] for v in D["variants"]):
+        out.add("dashed-top-with-children")
     if D.get("media") and D["media"]["totaldiscs"] >= 10:
         out.add("media-ten-or-more")
     if len(D.get("checksums") or {}) >= 10:
